@@ -200,6 +200,68 @@ def _one_preemption(k, job_a, job_b, files, opcode):
     return {"results": results, "out": out, "finished_early": finished_early}
 
 
+def _pct_exec(seed, jobs, files, opcode, depth, horizon):
+    """one execution under PCT scheduling: `depth` preemptions at random step indices below `horizon`"""
+    from . import vsched as vs
+    virtualise_locks()
+    s = vs.new_sched(seed, max_steps=200000)
+    suffixes = tuple(files)
+    if opcode:
+        s.opcode_files, s.opcode_budget = suffixes, 100000
+    else:
+        s.line_files, s.line_budget = suffixes, 100000
+    results = [None] * len(jobs)
+
+    def body(i, job):
+        try:
+            results[i] = ["ok", repr(job())]
+        except BaseException as e:
+            if type(e).__name__ == "ThreadKilled":
+                raise
+            results[i] = ["raised", f"{type(e).__name__}: {e}"]
+    for i, j in enumerate(jobs):
+        s.spawn(f"job{i}", body, i, j)
+    out = "alldone"
+    try:
+        out = s.run(chooser=vs.PCT(seed, depth=depth, horizon=horizon))
+    except vs.Deadlock as e:
+        out = "deadlock: " + str(e)
+    except (vs.StepLimit, vs.StepHang) as e:
+        out = type(e).__name__ + ": " + str(e)
+    return {"results": results, "out": out, "steps": s.steps}
+
+
+def pct_runs(pairs, files, nruns, depth=2, opcode=False, judge=None, seed0=0):
+    """`nruns` executions per pair under PCT scheduling with `depth` preemption points (two threads that are both stopped in the
+    middle of a call: what the one-preemption sweep cannot produce).  Returns (executions, problems)."""
+    from . import vsched as vs
+    vs.install(0)
+    problems, n = [], 0
+    for desc, job_a, job_b in pairs:
+        ref = forked(lambda: [["ok", repr(job_a())], ["ok", repr(job_b())]])
+        if ref and ref[0] == "child-failed":
+            problems.append((desc, -1, f"the sequential reference execution failed: {ref[1]}"))
+            continue
+        horizon = 400
+        for i in range(nruns):
+            r = forked(lambda: _pct_exec(seed0 + i * 7919 + 1, [job_a, job_b], files, opcode, depth, horizon))
+            n += 1
+            if isinstance(r, list) and r and r[0] == "child-failed":
+                problems.append((desc, i, r[1]))
+                break
+            horizon = max(horizon, int(r.get("steps", 400) * 0.9))          # the preemption points are spread over the whole execution
+            if judge is not None:
+                text = judge(r["results"][0], r["results"][1]) if r["out"] == "alldone" else r["out"]
+                if text:
+                    problems.append((desc, i, text))
+                    break
+            elif r["out"] != "alldone" or r["results"] != ref:
+                bad = 0 if r["results"][0] != ref[0] else 1
+                problems.append((desc, i, f"call {'AB'[bad]} gives {r['results'][bad]} instead of {ref[bad]} ({r['out']}; PCT schedule {seed0 + i * 7919 + 1})"))
+                break
+    return n, problems
+
+
 def purity_sweep(pairs, files, kmax=300, opcode=False, stride=1, judge=None):
     """pairs: list of (description, job_a, job_b): zero-argument callables returning a value with a faithful repr().
     For each pair: the sequential results (A then B, in a fresh child) are the reference; then, for k = 0, stride, 2 stride, ...,
@@ -245,3 +307,21 @@ def model_check_cache(rep, tlc):
             rep.tlc("Cache (no shared state)", res)
         elif res.violated != expect:
             raise tlc.TlcError(f"vacuity self-test: Cache.tla mode {mode} does not violate {expect}")
+
+
+def purity_stage(rep, what, pairs, files, kmax=300, stride=1, model=True, pct=0, pct_pairs=None):
+    """the common stage of the function-level checks: Cache.tla model-checked (once), then the one-preemption sweep"""
+    from . import tlc
+    if model:
+        model_check_cache(rep, tlc)
+    n, problems = purity_sweep(pairs, files, kmax=kmax, stride=stride)
+    if pct and not problems:
+        n2, problems = pct_runs(pct_pairs or pairs, files, pct, depth=2, seed0=rep.seed)
+        n += n2
+    rep.case(("purity", what), n)
+    rep.notes["concurrent_executions"] = rep.notes.get("concurrent_executions", 0) + n
+    for desc, k, text in problems:
+        rep.violation(f"two threads inside {what} ({desc}; execution {k}): {text}", {"kind": "purity", "k": k, "desc": desc})
+    rep.assumptions.append("concurrent stage: threads are serialised (GIL semantics), the second thread runs a complete call while the first is "
+                           "stopped at a source line of the named library files")
+    return problems
